@@ -70,10 +70,12 @@ class State:
     ctx: tuple = ()
     undefined_uses: List[Tuple[str, ast.AST]] = field(default_factory=list)
     maybe_deleted: set = field(default_factory=set)
+    types: Dict[Term, str] = field(default_factory=dict)     # from cast(T, x)
 
     def fork(self) -> 'State':
         return State(dict(self.env), list(self.events), list(self.assumptions), self.status,
-                     self.retval, self.ctx, list(self.undefined_uses), set(self.maybe_deleted))
+                     self.retval, self.ctx, list(self.undefined_uses), set(self.maybe_deleted),
+                     dict(self.types))
 
     # -- queries used by rules ------------------------------------------------------------
     def calls(self) -> List[Event]:
@@ -550,8 +552,11 @@ class Evaluator:
             rt = self.expr(r, s)
             parts.append(('cmp', CMPOPS.get(type(op), '?'), left, rt))
             left = rt
+        parts = [_fold_cmp(x) for x in parts]
         if len(parts) == 1:
             return parts[0]
+        if all(x[0] == 'const' for x in parts):
+            return ('const', all(x[1] for x in parts))
         return ('bool', 'and', tuple(parts))
 
     def ex_IfExp(self, e: ast.IfExp, s: State):
@@ -642,6 +647,8 @@ class Evaluator:
                     for k in e.keywords)
         # transparent wrappers
         if f[0] == 'global' and f[1] in ('typing.cast', 'builtins.cast') and len(args) == 2:
+            if args[0][0] == 'global':
+                s.types[args[1]] = args[0][1]
             return args[1]
         t = ('call', f, args, kws)
         s.events.append(Event('call', (t,), e, s.ctx))
@@ -655,6 +662,29 @@ class Evaluator:
 
 
 # ----------------------------------------------------------------------------------
+def _fold_cmp(c: Term) -> Term:
+    """Fold comparisons between literal constants (used when a callee is analysed with a
+    constant argument, e.g. conversion_type='export')."""
+    op, a, b = c[1], c[2], c[3]
+    if a[0] == 'const' and b[0] == 'const':
+        try:
+            if op == '==':
+                return ('const', a[1] == b[1])
+            if op == '!=':
+                return ('const', a[1] != b[1])
+            if op == 'is':
+                return ('const', a[1] is b[1])
+            if op == 'is not':
+                return ('const', a[1] is not b[1])
+        except Exception:       # noqa: BLE001
+            return c
+    if a[0] == 'const' and op in ('in', 'not in') and b[0] in ('tuple', 'list', 'set') and \
+            all(x[0] == 'const' for x in b[1]):
+        r = a[1] in [x[1] for x in b[1]]
+        return ('const', r if op == 'in' else not r)
+    return c
+
+
 def _static_noneness(t: Term) -> Optional[bool]:
     """True if the term is certainly None, False if certainly not None, else None."""
     if t == NONE:
